@@ -158,7 +158,8 @@ def run(c):
             c.install_tmpl("C19/Inst_Adapter.v", "C19/C19.v")
             gen_ok = c.coq_compile(["Inst_Adapter.v"])
             if gen_ok:
-                c.coq_compile(["C19.v"])
+                if c.coq_compile(["C19.v"]) and thorough:
+                    bhlib.coqchk(c, "RGW.C19")
             else:
                 # is the regenerated code at least usable as an executable model?
                 pass
